@@ -432,8 +432,7 @@ class EDEOption(Option):  # lgtm[py/missing-equals]
         text = parser.get_remaining()
 
         if text:
-            if text[-1] == 0:  # text MAY be null-terminated
-                text = text[:-1]
+            text = text.rstrip(b"\x00")  # text MAY be null-terminated
             btext = text.decode("utf8")
         else:
             btext = None
